@@ -60,7 +60,9 @@ def oracle(case, obs, interval=None):
 def classify(case, obs, fails):
     """replay dict for a failing case; `kind` says whether the session merely behaves as if its two intervals were exchanged"""
     kind = 'c08'
-    if case['ci'] != case['si'] and 'error' not in obs and not oracle(case, obs, interval=mc.peer_interval(case)):
+    # only when the observation is long enough for the exchanged interval to be a real test, not a vacuous one
+    if case['ci'] != case['si'] and 'error' not in obs and mc.life(obs, case) >= 2 * max(case['ci'], case['si']) \
+            and not oracle(case, obs, interval=mc.peer_interval(case)):
         kind = 'role-intervals-swapped'
     return dict(case, kind=kind, property='C08', observed=mc.canon(obs), why=fails[0])
 
@@ -142,6 +144,9 @@ def check_case(ctx, case, model_line, tag):
     obs = mc.impl_run(case)
     ctx.case(describe(case), nontrivial=bool(case['events']) or tag == 'exhaustive', sample_every=211)
     ctx.count(f"{tag}:{case['role']}")
+    for _t, ev in case['events']:
+        if ev.startswith('send'):
+            ctx.count(f"{case['role']}:{ev}")
     if 'error' in obs:
         ctx.count('impl-error')
     else:
@@ -202,6 +207,9 @@ def run(ctx):
         cases.append(('server-unequal', c))
     for _ in range(20000 if thorough else 1500):
         cases.append(('random', random_case(rng, thorough)))
+    for tag, c in cases:
+        if tag != 'corpus':
+            mc.vary_sends(rng, c)
     lines = [mc.model_request(c) for _, c in cases]
     ans = ctx.driver.ask(lines) if ctx.driver.available else [None] * len(lines)
     for (tag, c), a in zip(cases, ans):
